@@ -137,7 +137,7 @@ class Box:
   import c11dyn  # pylint: disable=import-outside-toplevel,unused-import
 
 
-PARAMS = ['a', 'b', 'nope', 'zz', '_private', 'A']
+PARAMS = ['a', 'b', 'nope', 'zz', '_private', 'A', 'self']
 SCOPES = ['', 's']
 PATHS = ['str', 'tuple', 'list', 'pbk', 'text', 'block', 'files_and_bindings', 'hook', 'hook_tuple', 'tuple4',
          'list4', 'hook_tuple4']
